@@ -567,6 +567,29 @@ class _Fn:
             return any(self.maybe_infinite(b.value, depth + 1) for b in binds if not isinstance(b.value, ast.Constant)) or (a.id in params)
         return False
 
+    def bounded_by_guards(self, use, a):
+        """every variable of `a` is bounded above and below by comparisons with constants that dominate the use
+        (`if v > 255: return 255` / `if v < 0: return 0` before `int(v)`)"""
+        from .flow import dominated
+
+        names = {x.id for x in ast.walk(a) if isinstance(x, ast.Name) and x.id not in ("int", "round", "ceil", "floor", "abs", "float", "math")}
+        if not names:
+            return False
+
+        def bound(name, upper):
+            def atom_test(test, positive):
+                if isinstance(test, ast.Compare) and len(test.ops) == 1 and isinstance(test.left, ast.Name) and test.left.id == name and isinstance(test.comparators[0], ast.Constant) \
+                        and isinstance(test.comparators[0].value, (int, float)):
+                    gt = isinstance(test.ops[0], (ast.Gt, ast.GtE))
+                    lt = isinstance(test.ops[0], (ast.Lt, ast.LtE))
+                    if upper:
+                        return (gt and not positive) or (lt and positive)
+                    return (lt and not positive) or (gt and positive)
+                return False
+            return atom_test
+
+        return all(dominated(use, self.fn, bound(nm, True)) and dominated(use, self.fn, bound(nm, False)) for nm in names)
+
     def call(self, n):
         out = {}
         f = n.func
@@ -574,7 +597,7 @@ class _Fn:
             a = n.args[0]
             numeric = isinstance(a, (ast.BinOp, ast.UnaryOp)) or (isinstance(a, ast.Call) and isinstance(a.func, ast.Name) and a.func.id in ("round", "float", "abs", "ceil", "floor")) \
                 or (isinstance(a, ast.Name) and f.id == "round")
-            if numeric and self.maybe_infinite(a):
+            if numeric and self.maybe_infinite(a) and not self.bounded_by_guards(n, a):
                 merge(out, self.src("OverflowError", "%s(%s) of a float that may be infinite" % (f.id, ast.unparse(a)[:40]), n))
         if isinstance(f, ast.Name) and f.id in ("float", "int") and len(n.args) == 1:
             if not self.conv_safe(n.args[0], f.id):
